@@ -291,8 +291,10 @@ Fixpoint omap {A B} (f : A -> option B) (l : list A) : option (list B) :=
   | x :: r => match f x, omap f r with Some y, Some ys => Some (y :: ys) | _, _ => None end
   end.
 
-(* the field loop of writeValue for a struct: fields in table order; acc holds the entries written so far *)
-Definition fields_enc (encf : gtype -> gv -> tres) :
+(* the field loop of writeValue for a struct: fields in table order; acc holds the entries written so far.
+   encf: Encoder.marshal with the tag getTagType selected; encl: with the `list` option the tag is overridden
+   to TagList and the value (a slice or array behind pointers / an interface) is written by the TagList case *)
+Definition fields_enc (encf encl : gtype -> gv -> tres) :
   list (finfo * gtype) -> list gv -> list (list N * tag) -> tres :=
   fix go (fs : list (finfo * gtype)) (vs : list gv) (acc : list (list N * tag)) : tres :=
   match fs, vs with
@@ -304,13 +306,8 @@ Definition fields_enc (encf : gtype -> gv -> tres) :
       else if f_list (fst f) && negb ((get_tag (snd f) x =? idByteArray) || (get_tag (snd f) x =? idIntArray)
                                       || (get_tag (snd f) x =? idLongArray)) then TErr
       else if name_too_long (f_name (fst f)) then TErr
-      else tbind (encf (snd f) x) (fun tr =>
-             if f_list (fst f) then
-               match as_list tr with
-               | Some tl => go fr vr ((f_name (fst f), tl) :: acc)
-               | None => TErr
-               end
-             else go fr vr ((f_name (fst f), tr) :: acc))
+      else tbind (if f_list (fst f) then encl (snd f) x else encf (snd f) x)
+                 (fun tr => go fr vr ((f_name (fst f), tr) :: acc))
   | _, _ => TPanic
   end.
 
@@ -357,7 +354,7 @@ Fixpoint enc (t : gtype) (v : gv) {struct t} : tres :=
   | YStruct fs =>
       match v with
       | GvStruct vs =>
-          fields_enc (fun t x => enc t x) fs vs []
+          fields_enc (fun t x => enc t x) (fun t x => enc_l t x) fs vs []
       | _ => TPanic
       end
   | YPtr e =>
@@ -369,6 +366,34 @@ Fixpoint enc (t : gtype) (v : gv) {struct t} : tres :=
   | YIface => match v with GvIface (Some a) => any_tree a | GvIface None => TErr | _ => TPanic end
   | YRaw => match v with GvRaw (Some tr) => TOk tr | GvRaw None => TErr | _ => TPanic end
   | YDyn => match v with GvDyn (Some tr) => TOk tr | GvDyn None => TErr | _ => TPanic end
+  end
+(* writeValue(v, TagList) on what getTagType found behind pointers and interfaces (the `list` field option) *)
+with enc_l (t : gtype) (v : gv) {struct t} : tres :=
+  match t with
+  | YSlice e | YArray _ e =>
+      match v with
+      | GvList l =>
+          let et := match l with x :: _ => get_tag e x | [] => tag_by_ty e end in
+          match tmap (fun x => if get_tag e x =? et then enc e x else TErr) l with
+          | Some (Some ts) => TOk (TList et ts)
+          | Some None => TErr
+          | None => TPanic
+          end
+      | _ => TPanic
+      end
+  | YPtr e =>
+      match v with
+      | GvPtr (Some x) => enc_l e x
+      | GvPtr None => enc_l e (zero e)
+      | _ => TPanic
+      end
+  | YIface =>
+      match v with
+      | GvIface (Some a) => tbind (any_tree a) (fun tr => match as_list tr with Some tl => TOk tl | None => TErr end)
+      | GvIface None => TErr
+      | _ => TPanic
+      end
+  | _ => TErr
   end.
 
 (* Encoder.Encode(v, name): `byval` says whether v itself or &v is handed to Marshal.  A nil interface
@@ -432,7 +457,7 @@ Inductive ures : Type :=
 | UOk (v : gv)
 | UErr                      (* Go returns an error *)
 | UOut.                     (* outside the model: a key decoded twice into the same struct field (the real
-                               code merges into the previous value), float32 -> float64 widening *)
+                               code merges into the previous value) *)
 Definition ubind (r : ures) (f : gv -> ures) : ures :=
   match r with UOk v => f v | UErr => UErr | UOut => UOut end.
 Definition umap {A} (f : A -> ures) : list A -> option (option (list gv)) :=
@@ -570,7 +595,7 @@ Fixpoint unm_base (tr : tag) (b : gtype) {struct tr} : ures :=
     | TShort v => match b with YInt sg w => if 16 <=? w then UOk (store_int sg w v) else UErr | _ => UErr end
     | TInt v => match b with YInt sg w => if 32 <=? w then UOk (store_int sg w v) else UErr | _ => UErr end
     | TLong v => match b with YInt sg w => if 64 <=? w then UOk (store_int sg w v) else UErr | _ => UErr end
-    | TFloat bits => match b with YF32 => UOk (GvF32 bits) | YF64 => UOut | _ => UErr end
+    | TFloat bits => match b with YF32 => UOk (GvF32 bits) | YF64 => UOk (GvF64 (widen32 bits)) | _ => UErr end
     | TDouble bits => match b with YF64 => UOk (GvF64 bits) | _ => UErr end
     | TString s => match b with YStr => UOk (GvStr s) | _ => UErr end
     | TByteArray l => arr_into b byte_to l
@@ -734,11 +759,11 @@ Fixpoint any_ok (a : aval) : bool :=
 Definition elem_plain (e : gtype) : bool :=
   match e with YIface | YPtr _ => false | _ => true end.
 
-Definition fields_typed (ht : gtype -> gv -> bool) : list (finfo * gtype) -> list gv -> bool :=
+Definition fields_typed (ht htl : gtype -> gv -> bool) : list (finfo * gtype) -> list gv -> bool :=
   fix go (fs : list (finfo * gtype)) (vs : list gv) : bool :=
   match fs, vs with
   | [], [] => true
-  | f :: fr, x :: vr => ht (snd f) x && go fr vr
+  | f :: fr, x :: vr => (if f_list (fst f) then htl (snd f) x else ht (snd f) x) && go fr vr
   | _, _ => false
   end.
 
@@ -755,7 +780,7 @@ Fixpoint has_type (t : gtype) (v : gv) {struct t} : bool :=
       Nat.eqb (length l) n && (lenN l <? 2^31) && (elem_plain e || (get_tag t v =? idList)) && forallb (has_type e) l
   | YMap e, GvMap m => keys_nodup m && forallb (fun kv => all_bytesb (fst kv) && has_type e (snd kv)) m
   | YStruct fs, GvStruct vs =>
-      fields_typed (fun t x => has_type t x) fs vs
+      fields_typed (fun t x => has_type t x) (fun t x => has_type_l t x) fs vs
   | YPtr e, GvPtr (Some x) => has_type e x
   | YPtr e, GvPtr None => has_type e (zero e)      (* written as the zero value *)
   | YIface, GvIface (Some a) => any_ok a
@@ -765,11 +790,20 @@ Fixpoint has_type (t : gtype) (v : gv) {struct t} : bool :=
   | YDyn, GvDyn (Some tr) => wfb tr
   | YDyn, GvDyn None => true
   | _, _ => false
+  end
+(* a field with the `list` option: the slice or array (behind pointers) is written as a TagList whatever its
+   first element is, so no condition on it *)
+with has_type_l (t : gtype) (v : gv) {struct t} : bool :=
+  match t, v with
+  | YSlice e, GvList l => (lenN l <? 2^31) && forallb (has_type e) l
+  | YArray n e, GvList l => Nat.eqb (length l) n && (lenN l <? 2^31) && forallb (has_type e) l
+  | YPtr e, GvPtr (Some x) => has_type_l e x
+  | YPtr e, GvPtr None => has_type_l e (zero e)
+  | _, _ => false       (* an interface holding []byte written as a list comes back as []any: not in the universe *)
   end.
 
 (* the documented types: sized integers only; the names of the fields of a struct are byte strings and
-   pairwise different (typeinfo.go drops clashing fields); the `list` option is not covered by the
-   theorem yet (named in meta).  A slice or array whose elements are interfaces or pointers and whose first
+   pairwise different (typeinfo.go drops clashing fields).  A slice or array whose elements are interfaces or pointers and whose first
    element is byte/int32/int64-tagged is refused or re-typed by the encoder: excluded by has_type. *)
 Fixpoint names_ok (fs : list (finfo * gtype)) : bool :=
   match fs with
@@ -789,7 +823,7 @@ Fixpoint documented (t : gtype) : bool :=
   | YStruct fs =>
       names_ok fs &&
       (fix go (fs : list (finfo * gtype)) : bool :=
-         match fs with [] => true | f :: r => negb (f_list (fst f)) && documented (snd f) && go r end) fs
+         match fs with [] => true | f :: r => documented (snd f) && go r end) fs
   | _ => true
   end.
 
@@ -896,7 +930,7 @@ Fixpoint reached (tfs : list tfield) (vs : list dv) : option (list (finfo * gtyp
   end.
 Definition enc_emb (ds : list dfield) (vs : list dv) : tres :=
   match reached (type_fields ds) vs with
-  | Some (fs, xs) => fields_enc (fun t x => enc t x) fs xs []
+  | Some (fs, xs) => fields_enc (fun t x => enc t x) (fun t x => enc_l t x) fs xs []
   | None => TPanic
   end.
 
